@@ -348,9 +348,15 @@ Definition order_current (order : list skey) (s : sys) : bool :=
   Nat.eqb (length order) (length (senders s)) &&
   forallb (fun q => existsb (skey_eqb (skey_of (fst q))) order) (senders s).
 
+(* when the order is not known: every order of the channels on which the push can have an effect (a channel without receiver
+   or closed is passed at once wherever it stands: those go first) *)
 Definition fan_orders (order : list skey) (s : sys) (it : item) : list (list nat) :=
   let t := targets mt (ordered_senders order s) it in
-  if order_current order s then [t] else if Nat.leb (length t) 5 then perms t else [t].
+  if order_current order s then [t] else
+  let inert (c : nat) := match try_push it (chan_at s c) with PNoRecv | PClosed => true | _ => false end in
+  let idle := filter inert t in
+  let live := filter (fun c => negb (inert c)) t in
+  if Nat.leb (length live) 5 then map (fun p => idle ++ p) (perms live) else [t].
 
 Inductive rstep := RDone (s : sys) (ev : list rdev) | RMore (s : sys) (ev : list rdev).
 
@@ -393,7 +399,7 @@ Fixpoint reader_run (fuel : nat) (order : list skey) (front : list (sys * list r
           let steps := flat_map (fun p => reader_advance order (fst p) (snd p)) front in
           let done := flat_map (fun x => match x with RDone s ev => [(s, rev ev)] | RMore _ _ => [] end) steps in
           let more := flat_map (fun x => match x with RMore s ev => [(s, ev)] | RDone _ _ => [] end) steps in
-          done ++ reader_run f order (firstn 64 (dedupe_r [] more))
+          done ++ reader_run f order (firstn 256 (dedupe_r [] more))
       end
   end.
 
